@@ -289,7 +289,7 @@ func init() {
 			}
 		}
 		meta := &Meta{Property: "C06", Seed: seed, Histogram: map[string]int{}, Shard: 500,
-			Rule: "directed media-type / presence / read-only table + seeded random content maps (exact keys, with parameters, type/*, */*) x Content-Type strings x JSON and text bodies aimed at the schema then mutated x options; non-trivial = a media type with a schema is selected; distinct by JSON of the case"}
+			Rule: "directed media-type / presence / read-only table + seeded random content maps (exact keys, with parameters, type/*, */*) x Content-Type strings x JSON and text bodies aimed at the schema then mutated; plus (Go side) flat objects of primitives and arrays encoded as application/x-www-form-urlencoded and multipart/form-data bodies - every property present / some absent / texts not of the declared type / undeclared fields, with and without required and additionalProperties: false - whose verdict is compared with the one the fields determine (disagreements are named by their cause) x options; non-trivial = a media type with a schema is selected; distinct by JSON of the case"}
 		seen := map[string]bool{}
 		var terms []string
 		for i := range cases {
@@ -305,6 +305,18 @@ func init() {
 			meta.Histogram[fmt.Sprintf("class=%d", o.Class)]++
 			meta.Histogram[fmt.Sprintf("kind=%d", o.Kind)]++
 			meta.Histogram["selected="+o.Selected]++
+		}
+		if replay == "" {
+			fr := NewRng(seed ^ 0xf0f0)
+			for _, fc := range formCases(fr, n/6) {
+				fc := fc
+				sig, detail := runForm(&fc)
+				meta.Histogram["form "+fc.Enc]++
+				if sig != "" {
+					meta.Histogram["oracle:"+sig]++
+					meta.GoViolation = append(meta.GoViolation, map[string]any{"signature": sig, "cases": []any{fc}, "go_observation": detail, "judgement": "form body on the Go side: " + sig + " " + detail})
+				}
+			}
 		}
 		meta.NCases = len(cases)
 		meta.Files = writeCases(outDir, "From KV Require Import Model.Base Model.Json Model.Schema Model.Lookup Model.Response Model.Body Exec.C06Exec.", "c06case", "judge", terms, meta.Shard)
